@@ -118,15 +118,17 @@ fn analysis_rule(r: &Value) -> Rule {
     // (r2 is also a sampled rule: always in, unless the request carries the override "false")
     if id == "r2" { v["stop"] = json!(true); v["source"]["sampling"] = json!(100); }
     // r1 acts on a backend 404 only, and its example says the backend answers 404
-    let on404 = id == "r1";
+    // r4 acts on a backend 404 too but does NOT redirect: only its header and body filters depend on the backend's code
+    let on404 = id == "r1" || id == "r4";
     if on404 { v["source"]["response_status_codes"] = json!([404]); }
+    if id == "r4" { v["status_code"] = Value::Null; v["target"] = Value::Null; }
     if id == "r3" { v["reset"] = json!(true); v["configuration_reset_unit_id"] = json!("u-reset-r3"); }
     v["redirect_unit_id"] = json!(format!("u-{}", id));
     v["target_hash"] = json!(format!("th-{}", id));
     v["header_filters"] = json!([{"action": "add", "header": "X-Rule", "value": id, "id": format!("uh-{}", id), "target_hash": format!("thh-{}", id)}]);
     v["body_filters"] = json!([{"action": "append_child", "value": format!("<i>{}</i>", id), "element_tree": ["html", "body"], "css_selector": null, "id": format!("ub-{}", id), "target_hash": null}]);
     v["examples"] = json!([{"url": format!("{}://{}{}", scheme, host, path), "method": null, "headers": null, "ip_address": null, "response_status_code": if on404 { json!(404) } else { Value::Null },
-                            "must_match": true, "unit_ids_applied": [format!("u-{}", id)]}]);
+                            "must_match": true, "unit_ids_applied": if id == "r4" { json!([format!("uh-{}", id), format!("ub-{}", id)]) } else { json!([format!("u-{}", id)]) }}]);
     serde_json::from_value(v).expect("analysis rule")
 }
 
